@@ -163,7 +163,7 @@ func directC05(c *Case, h *HistoryJ, plain *CallJ, model *HistoryJ) []Finding {
 		same = true
 	}
 	if !same {
-		out = append(out, Finding{Sig: "C05:resume-equiv:final:" + plain.Res + "->" + last.Res + failClassSuffix(last),
+		out = append(out, Finding{Sig: "C05:resume-equiv:final:" + plain.Res + "->" + last.Res + failClassSuffix(last) + shapeSuffix(c.G),
 			What:  "the final outcome of the interrupted-and-resumed run differs from the uninterrupted run of the same graph",
 			Model: map[string]any{"uninterrupted": plain}, Impl: map[string]any{"resumed_final": last, "calls": len(h.Calls)}})
 		return out
@@ -172,11 +172,38 @@ func directC05(c *Case, h *HistoryJ, plain *CallJ, model *HistoryJ) []Finding {
 		return out // the failing step is cut short: a rerun node of that step is never re-run, siblings may or may not have started
 	}
 	if !multisetEq(eff, plain.Effective) {
-		out = append(out, Finding{Sig: "C05:resume-equiv:execs",
+		out = append(out, Finding{Sig: "C05:resume-equiv:execs" + shapeSuffix(c.G),
 			What:  "the node executions (node path, input) of the interrupted-and-resumed run, aborted rerun attempts excluded, differ from those of the uninterrupted run",
 			Model: map[string]any{"uninterrupted_execs": sorted(plain.Effective)}, Impl: map[string]any{"resumed_execs": sorted(eff), "calls": len(h.Calls)}})
 	}
 	return out
+}
+
+// edgeAndBranchSamePred: some all-predecessor level has a node reached from the same predecessor by a
+// direct edge and as an end of one of its branches (the shape of the C02 finding: the skip reported by
+// the branch and the dependency reported by the edge do not commute).
+func edgeAndBranchSamePred(g *Graph) bool {
+	found := false
+	levels(g, func(l *Graph) {
+		if l.Mode != "dag" {
+			return
+		}
+		for _, b := range l.Branches {
+			for _, e := range b.Ends {
+				if has(l.Edges, b.From, e) {
+					found = true
+				}
+			}
+		}
+	})
+	return found
+}
+
+func shapeSuffix(g *Graph) string {
+	if edgeAndBranchSamePred(g) {
+		return ":edge+branch-same-pred"
+	}
+	return ""
 }
 
 func failClassSuffix(c *CallJ) string {
